@@ -193,3 +193,22 @@ package pcache
 //@   pure
 //@   requires 0 <= u && u < 2147483648 && 0 <= m && m < 2147483648
 //@   ensures result <==> u * (u + 1) > 2 * m
+
+// ---------------------------------------------------------------------------
+// Options (C06: "each provider reported by at least one responding source"): sources are ADDED - the
+// sources configured before stay, in order, whatever option is applied after them.
+//@ func WithSource$1
+//@   property C06
+//@   requires cfg != nil
+//@   ensures result == nil && len(cfg.sources) == old(len(cfg.sources)) + len(src)
+//@   ensures forall(j, 0, old(len(cfg.sources)), cfg.sources[j] == old(cfg.sources)[j])
+//@   ensures forall(j, 0, len(src), cfg.sources[old(len(cfg.sources)) + j] == src[j])
+
+//@ func WithSourceURL$1
+//@   property C06
+//@   requires cfg != nil
+//@   loop 1: invariant rangeindex < len(urls) && len(cfg.sources) == old(len(cfg.sources)) + rangeindex + 1
+//@   loop 1: invariant forall(j, 0, old(len(cfg.sources)), cfg.sources[j] == old(cfg.sources)[j])
+//@   loop 1: exhaustive
+//@   ensures result == nil ==> len(cfg.sources) == old(len(cfg.sources)) + len(urls)
+//@   ensures forall(j, 0, old(len(cfg.sources)), cfg.sources[j] == old(cfg.sources)[j])
